@@ -174,6 +174,9 @@ pub struct Merged {
 }
 
 pub type RunFn = fn(&mut Prng, Tier, usize, &mut Sink);
+/// Which runs get a worker process of their own (a FRESH process: every lazily initialised static
+/// of the library is still untouched, so first-use races between two callers can occur at all).
+pub type IsoFn = fn(Tier, usize) -> bool;
 
 pub fn run_seed(seed: u64, prop: &str, tier: Tier, i: usize) -> u64 {
     mix(seed, &[label(prop), label(tier.name()), i as u64])
@@ -294,6 +297,20 @@ pub fn run_one_rec(f: RunFn, seed: u64, prop: &str, tier: Tier, i: usize, record
 /// The whole run as one schedule: every world in execution order, separated by `world.reset`,
 /// up to and including the first world that violates (property, oracle). Used when a violation
 /// depends on state the library kept from earlier worlds of the run.
+/// The same, computed by a fresh child process (`gmsim record ...`): the parent may by now hold
+/// library state left by confirmation or minimisation attempts, and a generator's choices depend
+/// on what the library answers.
+pub fn recorded_schedule(level: &str, seed: u64, prop: &str, tier: Tier, run: usize, n: usize, oracle: &str) -> Option<Vec<Value>> {
+    let exe = std::env::current_exe().ok()?;
+    let out = std::process::Command::new(exe)
+        .args(["record", level, prop, tier.name(), &seed.to_string(), &run.to_string(), &n.to_string(), oracle])
+        .stderr(std::process::Stdio::null())
+        .output()
+        .ok()?;
+    let v: Value = serde_json::from_slice(&out.stdout).ok()?;
+    v.as_array().cloned()
+}
+
 pub fn run_level_schedule(f: RunFn, seed: u64, prop: &str, tier: Tier, i: usize, oracle: &str) -> Option<Vec<Value>> {
     let sink = run_one_rec(f, seed, prop, tier, i, true);
     let mut out = vec![];
@@ -322,7 +339,7 @@ pub enum WorkerFail {
 
 /// `gmsim worker <ID> <tier> <seed> <runs> <w> <n>`: runs w, w+n, w+2n, ... one after the other, each
 /// in a fresh thread; one JSON line per finished run on stdout.
-pub fn worker_main(f: RunFn, seed: u64, prop: &str, tier: Tier, runs: usize, w: usize, n: usize) -> i32 {
+pub fn worker_main(f: RunFn, iso: IsoFn, seed: u64, prop: &str, tier: Tier, runs: usize, w: usize, n: usize) -> i32 {
     use std::io::Write as _;
     set_journal_property(prop);
     spawn_watchdog(|run| {
@@ -333,10 +350,13 @@ pub fn worker_main(f: RunFn, seed: u64, prop: &str, tier: Tier, runs: usize, w: 
     let out = std::io::stdout();
     let mut i = w;
     while i < runs {
-        let s = run_one(f, seed, prop, tier, i);
-        let mut o = out.lock();
-        let _ = writeln!(o, "{}", s.to_json());
-        let _ = o.flush();
+        // n >= runs: this process was started for run w alone
+        if n >= runs || !iso(tier, i) {
+            let s = run_one(f, seed, prop, tier, i);
+            let mut o = out.lock();
+            let _ = writeln!(o, "{}", s.to_json());
+            let _ = o.flush();
+        }
         i += n;
     }
     0
@@ -346,23 +366,24 @@ pub fn worker_main(f: RunFn, seed: u64, prop: &str, tier: Tier, runs: usize, w: 
 /// (statics, caches), and two runs sharing a process at the same time would make each other's
 /// outcome depend on real thread timing. Inside a worker the runs are sequential, so everything a
 /// run can see is decided by (seed, property, tier, worker count).
-pub fn run_all(f: RunFn, seed: u64, prop: &str, tier: Tier, runs: usize, serial: bool) -> Result<Merged, WorkerFail> {
+pub fn run_all(f: RunFn, iso: IsoFn, seed: u64, prop: &str, tier: Tier, runs: usize, serial: bool) -> Result<Merged, WorkerFail> {
     GLOBAL_SEED.store(seed, Ordering::SeqCst);
     let sinks: Vec<Sink> = if serial {
         (0..runs).map(|i| run_one(f, seed, prop, tier, i)).collect()
     } else {
         let n = workers().min(runs.max(1));
         let exe = std::env::current_exe().expect("current_exe");
-        let mut children = vec![];
-        for w in 0..n {
-            let mut c = std::process::Command::new(&exe)
-                .args(["worker", prop, tier.name(), &seed.to_string(), &runs.to_string(), &w.to_string(), &n.to_string()])
-                .stdout(std::process::Stdio::piped())
-                .spawn()
-                .expect("spawn worker");
-            let out = c.stdout.take().unwrap();
-            let h = std::thread::spawn(move || {
+        // one worker process: its runs, and whether it got stuck / how it ended
+        let spawn = {
+            let (exe, prop) = (exe.clone(), prop.to_string());
+            move |w: usize, n: usize| -> (Vec<Sink>, Option<usize>, Option<i32>) {
                 use std::io::BufRead as _;
+                let mut c = std::process::Command::new(&exe)
+                    .args(["worker", &prop, tier.name(), &seed.to_string(), &runs.to_string(), &w.to_string(), &n.to_string()])
+                    .stdout(std::process::Stdio::piped())
+                    .spawn()
+                    .expect("spawn worker");
+                let out = c.stdout.take().unwrap();
                 let mut sinks = vec![];
                 let mut stuck = None;
                 for l in std::io::BufReader::new(out).lines().map_while(|l| l.ok()) {
@@ -377,20 +398,34 @@ pub fn run_all(f: RunFn, seed: u64, prop: &str, tier: Tier, runs: usize, serial:
                         Err(_) => println!("{l}"), // a diagnostic the worker printed: pass it on
                     }
                 }
-                (sinks, stuck)
-            });
-            children.push((c, h));
+                let st = c.wait().expect("wait worker");
+                let died = if st.success() { None } else { Some(st.code().unwrap_or(134)) };
+                (sinks, stuck, died)
+            }
+        };
+        let mut handles = vec![];
+        for w in 0..n {
+            let sp = spawn.clone();
+            handles.push(std::thread::spawn(move || vec![sp(w, n)]));
+        }
+        // isolated runs: one process each, `n` lanes of them side by side
+        let isolated: Vec<usize> = (0..runs).filter(|i| iso(tier, *i)).collect();
+        let lanes = n.min(isolated.len());
+        for lane in 0..lanes {
+            let sp = spawn.clone();
+            let mine: Vec<usize> = isolated.iter().copied().skip(lane).step_by(lanes).collect();
+            handles.push(std::thread::spawn(move || mine.into_iter().map(|i| sp(i, runs.max(i + 1))).collect()));
         }
         let mut sinks = vec![];
         let mut fail: Option<WorkerFail> = None;
-        for (mut c, h) in children {
-            let (s, stuck) = h.join().expect("worker reader");
-            let st = c.wait().expect("wait worker");
-            sinks.extend(s);
-            if let Some(r) = stuck {
-                fail = Some(WorkerFail::Stuck(r));
-            } else if !st.success() && fail.is_none() {
-                fail = Some(WorkerFail::Died(st.code().unwrap_or(134)));
+        for h in handles {
+            for (s, stuck, died) in h.join().expect("worker reader") {
+                sinks.extend(s);
+                if let Some(r) = stuck {
+                    fail = Some(WorkerFail::Stuck(r));
+                } else if let (Some(code), true) = (died, fail.is_none()) {
+                    fail = Some(WorkerFail::Died(code));
+                }
             }
         }
         if let Some(f) = fail {
@@ -444,10 +479,15 @@ pub fn run_all(f: RunFn, seed: u64, prop: &str, tier: Tier, runs: usize, serial:
 /// Everything worker `run mod n` executed up to and including `run`, as one schedule: runs separated
 /// by `thread.reset` (each run has its own thread), worlds by `world.reset`. For a violation that
 /// depends on state the library kept PROCESS-wide from earlier runs.
-pub fn worker_level_schedule(f: RunFn, seed: u64, prop: &str, tier: Tier, run: usize, n: usize, oracle: &str) -> Option<Vec<Value>> {
+pub fn worker_level_schedule(f: RunFn, iso: IsoFn, seed: u64, prop: &str, tier: Tier, run: usize, n: usize, oracle: &str) -> Option<Vec<Value>> {
     let mut out = vec![];
-    let mut r = run % n;
+    // an isolated run had a process of its own
+    let mut r = if iso(tier, run) { run } else { run % n };
     while r <= run {
+        if r != run && iso(tier, r) {
+            r += n;
+            continue;
+        }
         let sink = run_one_rec(f, seed, prop, tier, r, true);
         for (h, v) in sink.histories {
             out.extend(h);
@@ -502,19 +542,24 @@ pub fn exec_schedule(schedule: &[Value], keep_trace: bool) -> World {
     w
 }
 
-/// Re-execution for the minimiser, in a fresh thread: per-thread state the library may keep must
-/// not carry over from one candidate schedule to the next.
+/// Re-execution for the minimiser, in a FRESH PROCESS: neither per-thread nor process-wide state
+/// the library may keep (a cache, a poisoned lock) carries over from one candidate schedule to the
+/// next, nor from the minimiser into anything the parent does afterwards.
 fn fails_same(schedule: &[Value], property: &str, oracle: &str) -> bool {
-    let (s, p, o) = (schedule.to_vec(), property.to_string(), oracle.to_string());
-    std::thread::Builder::new()
-        .stack_size(64 << 20)
-        .spawn(move || {
-            let w = exec_schedule(&s, false);
-            w.invalid.is_none() && w.violations.iter().any(|v| v.property == p && v.oracle == o)
-        })
-        .ok()
-        .and_then(|h| h.join().ok())
-        .unwrap_or(false)
+    static N: AtomicU64 = AtomicU64::new(0);
+    let dir = std::env::temp_dir();
+    let path = dir.join(format!("gmsim-min-{}-{}.json", std::process::id(), N.fetch_add(1, Ordering::Relaxed)));
+    let doc = json!({"format": 1, "property": property, "oracle": oracle, "schedule": schedule});
+    if std::fs::write(&path, doc.to_string()).is_err() {
+        return false;
+    }
+    let exe = match std::env::current_exe() {
+        Ok(e) => e,
+        Err(_) => return false,
+    };
+    let st = std::process::Command::new(exe).arg("replay").arg(&path).arg("--quiet").stdout(std::process::Stdio::null()).stderr(std::process::Stdio::null()).status();
+    let _ = std::fs::remove_file(&path);
+    matches!(st.map(|s| s.code()), Ok(Some(1)))
 }
 
 fn shrink_hex_fields(op: &Value) -> Vec<Value> {
@@ -638,7 +683,7 @@ pub fn write_replay(dir: &Path, property: &str, seed: u64, tier: Tier, f: &Found
 }
 
 /// `gmsim replay <file>`: exit 1 and print the violation if the schedule still violates.
-pub fn replay_file(path: &Path) -> i32 {
+pub fn replay_file(path: &Path, quiet: bool) -> i32 {
     let txt = match std::fs::read_to_string(path) {
         Ok(t) => t,
         Err(e) => {
@@ -662,7 +707,7 @@ pub fn replay_file(path: &Path) -> i32 {
         println!("REPLAY outcome=timeout (an op exceeded {HANG_SECS}s)");
         println!("VIOLATION property={} replay=<this file>", if p2.is_empty() { "C20" } else { &p2 });
     });
-    let w = exec_schedule(&sched, true);
+    let w = exec_schedule(&sched, !quiet);
     for l in &w.trace {
         println!("{l}");
     }
